@@ -210,7 +210,8 @@ def run(ck):
     worst_int = 0.0
     for i in range(n):
         big = (i == 3) or (i % 100 == 53)
-        ant = long_wire(rng) if big else antgen.gen_antenna(rng, max_pulses=18 if ck.tier == 'quick' else 60)
+        ant = long_wire(rng) if big else antgen.gen_curved(rng) if i % 6 == 4 else \
+            antgen.gen_antenna(rng, max_pulses=18 if ck.tier == 'quick' else 60)
         m = antgen.build(ant)
         ss = rng.randrange(10 ** 9)
         antgen.pick_sources(random.Random(ss), m)
